@@ -15,6 +15,7 @@ STATIC_NAMES = {
     'PY3': True, '_winapi': None, 'win32': None, 'WINEXE': False,
     'WINSERVICE': False, 'HAVE_SEND_HANDLE': True, 'IS_PYPY': False,
     '_select': None,
+    'REMAP_SIGTERM': None,      # environment variable REMAP_SIGTERM unset
 }
 
 
